@@ -55,12 +55,12 @@ CONSTANTS Depth,          \* "quick" | "thorough" : how much of the grammar x mu
 \* The unchecked sites of the code the model transcribes (model names: file::function#kind).  The MC and trace
 \* configurations substitute this set for PanicSites.  The slices / unwraps of armor.rs, ser.rs, v4_bin.rs,
 \* slatepack/types.rs, lmdb.rs, ov3.rs, v4.rs (offset), api_impl/types.rs (key_id) and api/src/types.rs (nonce) found
-\* by this check were repaired in /repo (fix: commits 7f20db4 .. a441d49); the readers below transcribe the repaired code.
+\* by this check were repaired in /repo (fix: commits 7f20db4 .. a441d49, 011642f); the readers below transcribe the repaired code.
 \* What is left is upstream: grin_util::from_hex slices a &str at byte offsets and panics inside a multi-byte
 \* character; the wallet guards its own callers, the serde helpers of grin_core::libtx::secp_ser do not.
 PinnedPanicSites == { "grin_util::from_hex#char-boundary" }
 \* (still unguarded: grin_core::libtx::secp_ser pubkey_serde, option_sig_serde, commitment_from_hex, option_seckey_serde
-\* - classes secphex, sighex, commithex, tokenhex below - and LMDBBackend::get_stored_tx)
+\* - classes secphex, sighex, commithex, tokenhex below)
 
 RECURSIVE Flat(_)
 Flat(ss) == IF ss = <<>> THEN <<>> ELSE Head(ss) \o Flat(Tail(ss))
@@ -653,9 +653,7 @@ JsonEff(ly, lf, mu, carrier) ==
     [] mu.m = "type"   -> JsonTypeEff(lf.a, mu.a)
     [] mu.m = "str"    -> IF ly = "encreq" /\ lf.a = "b64inner" THEN E("err")       \* AES-GCM tag fails
                           ELSE JsonStrEff(lf.a, mu.a)
-    [] mu.m = "num"    -> IF lf.n = "/params/args/max_outputs" /\ mu.a = "zero"
-                          THEN Havoc_Semantics      \* decoded; what coin selection does with max_outputs = 0 is C01's business (eligible.windows(0))
-                          ELSE JsonNumEff(lf.a, mu.a)
+    [] mu.m = "num"    -> JsonNumEff(lf.a, mu.a)
     [] mu.m = "deep"   -> E("err")                                                 \* wrong type, or serde_json's recursion limit
     [] mu.m = "arr"    -> IF lf.a = "arr" THEN E("cont")           \* sigs / coms: any number of well-formed elements
                           ELSE IF lf.a = "obj" THEN E("err")      \* an object emptied of its required members, or turned into a list
@@ -668,11 +666,10 @@ JsonEff(ly, lf, mu, carrier) ==
 
 \* ---- single-token text formats
 TextEff(ly, mu) ==
-  CASE ly = "grintx" ->     \* LMDBBackend::get_stored_tx: from_hex and deserialize failures are Error::StoredTx; no ASCII check before from_hex
+  CASE ly = "grintx" ->     \* LMDBBackend::get_stored_tx: non-ASCII content, from_hex and deserialize failures are all Error::StoredTx
          (CASE mu.m = "case" -> E("cont")
             [] mu.m = "dup" -> Havoc_Semantics
             [] mu.m = "char" /\ mu.a = "flip" -> Havoc_Semantics                   \* still hex, may still be a transaction
-            [] mu.m = "nonascii" -> PanicAt("grin_util::from_hex#char-boundary")
             [] OTHER -> E("err"))
     [] ly = "onion" ->        \* OnionV3Address::try_from: ASCII only, then hex, then base32 + checksum
          (CASE mu.m = "case" -> E("cont")
